@@ -31,6 +31,13 @@ def step (s : St) (l : Line) : St × Verdict :=
     match req.toNat? with
     | some r => (s.put id (s.get id ++ [r]), .ok)
     | none => (s, .bad "issue args")
+  | "issuebof", [id, req] =>
+    -- through TaskPrepare: the file chunks it queues carry request ids of their own, so the record is read back
+    match req.toNat?, (kv "tasks" l.impl).bind natCsv with
+    | some r, some after =>
+      if after.contains r then (s.put id after, .ok)
+      else (s.put id after, .specFail "C05.tasks" s!"task {r} was issued but its id is not on record ({showTasks after})")
+    | _, _ => (s, .bad "issuebof output")
   | "cb", [id, cmd, req, final, _body] =>
     match cmd.toNat?, req.toNat?, kv "fx" l.impl, kv "tasks" l.impl, kv "st" l.impl, kv "files" l.impl with
     | some c, some r, some fx, some tk, some st, some files =>
